@@ -259,3 +259,15 @@ theorem insert_black_parent {st : Store} {a : Shape} {root : Nat} {b : Shape} {n
           (fun pn' hpn' => by rw [hrp1] at hpn'; cases hpn'; simp only [hgt, ↓reduceIte]; exact hp3)).1
 
 end EaselModel.Containers.RedBlackPtr
+
+namespace EaselModel.Containers.RedBlackPtr
+/-- REUSE OF A REFUSED RECORD: a record given back to the free list (the caller's `node->large = pool; pool = node` after
+    `insert` returned `NULL` for a duplicate) is the next one taken, and taking it restores the free list as it was:
+    no record is lost from the pool and none is handed out while it is in the tree -/
+theorem poolGive_take {st : Store} {pool : Ptr} {n : Nat} {nd : Node} (hr : rd st n = some nd) :
+    ∃ st', poolGive st pool n = some (st', some n) ∧ poolTake st' (some n) = some (n, pool) ∧
+      (∀ j, j ≠ n → rd st' j = rd st j) ∧ rd st' n = some { nd with large := pool } := by
+  obtain ⟨st', hw⟩ : ∃ st', wr st n (fun nd => { nd with large := pool }) = some st' := ⟨_, wr_of_rd _ hr⟩
+  have hrn := rd_wr_same hw hr
+  refine ⟨st', by simp [poolGive, hw], by simp [poolTake, hrn], fun j hj => rd_wr_ne hw hj, hrn⟩
+end EaselModel.Containers.RedBlackPtr
